@@ -33,6 +33,15 @@ extern void *__real_dlopen(const char *, int);
 extern int __real_dlclose(void *);
 extern void *__real_dlsym(void *, const char *);
 extern char *__real_dlerror(void);
+extern void __real_exit(int) __attribute__((noreturn));
+#include <setjmp.h>
+/* the library's fatal path is `print; exit(-1)`: while a NULL-argument call whose stated outcome is the fatal exit is in
+ * progress, exit() comes back to the harness instead of ending the process (no fork per call) */
+static jmp_buf fatal_env; static volatile int fatal_armed; static volatile int fatal_code;
+void __wrap_exit(int code) {
+    if (fatal_armed) { fatal_armed = 0; fatal_code = code; longjmp(fatal_env, 1); }
+    __real_exit(code);
+}
 
 static int x05_active;                    /* the sanitizer runtime resolves its interceptors through dlsym before main() */
 static int x05_internal;                  /* read-back by the harness itself: no accounting */
@@ -288,40 +297,33 @@ static void put_ret_int(vh_sb *b, long r) {
     sb_printf(b, "],r=%ld}", r);
 }
 
-/* NULL-argument calls; at level >= 1 the stated outcome is a fatal exit, so the call runs in a child */
-static long null_call(const char *what, spif_module_t m, int lvl) {
-    long r = 0; pid_t pid = 0; int st = 0;
-    int forked = lvl >= 1 || !strcmp(what, "fname");      /* call(m, NULL, ..) walks into the uninitialised branch of spif_module_call */
-    if (forked) {
-        fflush(stdout); fflush(stderr);
-        pid = fork();
-        if (pid < 0) return 97;
-        if (pid > 0) {
-            if (waitpid(pid, &st, 0) < 0) return 97;
-            if (WIFEXITED(st)) return WEXITSTATUS(st) == 255 ? 99 : (WEXITSTATUS(st) < 8 ? WEXITSTATUS(st) : 96);
-            return 98;                        /* killed by a signal */
-        }
-        vh_in_script = 0;
-        signal(SIGSEGV, SIG_DFL); signal(SIGBUS, SIG_DFL); signal(SIGABRT, SIG_DFL);
-    }
-    libast_debug_level = (unsigned int) lvl;
-    if (!strcmp(what, "init")) r = spif_module_init((spif_module_t) NULL) ? 1 : 0;
-    else if (!strcmp(what, "done")) r = spif_module_done((spif_module_t) NULL) ? 1 : 0;
-    else if (!strcmp(what, "del")) r = spif_module_del((spif_module_t) NULL) ? 1 : 0;
-    else if (!strcmp(what, "dup")) r = spif_module_dup((spif_module_t) NULL) ? 1 : 0;
-    else if (!strcmp(what, "type")) {      /* C: the type of nothing is the library's text for a NULL class name */
+/* NULL-argument calls; at level >= 1 the stated outcome is the fatal exit (caught through the interposed exit()) */
+static long null_raw(const char *what, spif_module_t m) {
+    if (!strcmp(what, "init")) return spif_module_init((spif_module_t) NULL) ? 1 : 0;
+    if (!strcmp(what, "done")) return spif_module_done((spif_module_t) NULL) ? 1 : 0;
+    if (!strcmp(what, "del")) return spif_module_del((spif_module_t) NULL) ? 1 : 0;
+    if (!strcmp(what, "dup")) return spif_module_dup((spif_module_t) NULL) ? 1 : 0;
+    if (!strcmp(what, "type")) {           /* C: the type of nothing is the library's text for a NULL class name */
         spif_classname_t c = spif_module_type((spif_module_t) NULL);
-        r = (c && strcmp((const char *) c, SPIF_NULLSTR_TYPE(classname))) ? 1 : 0;
+        return (c && strcmp((const char *) c, SPIF_NULLSTR_TYPE(classname))) ? 1 : 0;
     }
-    else if (!strcmp(what, "load")) r = spif_module_load((spif_module_t) NULL) ? 1 : 0;
-    else if (!strcmp(what, "unload")) r = spif_module_unload((spif_module_t) NULL) ? 1 : 0;
-    else if (!strcmp(what, "run")) r = spif_module_run((spif_module_t) NULL) ? 1 : 0;
-    else if (!strcmp(what, "call")) r = spif_module_call((spif_module_t) NULL, (spif_charptr_t) "echo", (spif_ptr_t) 0x5a5a) ? 1 : 0;
-    else if (!strcmp(what, "getsym")) r = spif_module_getsym((spif_module_t) NULL, (spif_charptr_t) "echo") ? 1 : 0;
-    else if (!strcmp(what, "sym")) r = spif_module_getsym(m, (spif_charptr_t) NULL) ? 1 : 0;
-    else if (!strcmp(what, "fname")) r = spif_module_call(m, (spif_charptr_t) NULL, (spif_ptr_t) 0x5a5a) ? 1 : 0;
-    else r = 95;
-    if (forked) _exit((int) r);
+    if (!strcmp(what, "load")) return spif_module_load((spif_module_t) NULL) ? 1 : 0;
+    if (!strcmp(what, "unload")) return spif_module_unload((spif_module_t) NULL) ? 1 : 0;
+    if (!strcmp(what, "run")) return spif_module_run((spif_module_t) NULL) ? 1 : 0;
+    if (!strcmp(what, "call")) return spif_module_call((spif_module_t) NULL, (spif_charptr_t) "echo", (spif_ptr_t) 0x5a5a) ? 1 : 0;
+    if (!strcmp(what, "getsym")) return spif_module_getsym((spif_module_t) NULL, (spif_charptr_t) "echo") ? 1 : 0;
+    if (!strcmp(what, "sym")) return spif_module_getsym(m, (spif_charptr_t) NULL) ? 1 : 0;
+    if (!strcmp(what, "fname")) return spif_module_call(m, (spif_charptr_t) NULL, (spif_ptr_t) 0x5a5a) ? 1 : 0;
+    return 95;
+}
+static long null_call(const char *what, spif_module_t m, int lvl) {
+    volatile long r = 0;
+    libast_debug_level = (unsigned int) lvl;
+    if (setjmp(fatal_env) == 0) {
+        fatal_armed = 1;
+        r = null_raw(what, m);
+        fatal_armed = 0;
+    } else r = (fatal_code & 0xff) == 255 ? 99 : 96;
     libast_debug_level = (unsigned int) level;
     return r;
 }
@@ -371,12 +373,28 @@ static long risky_op(const char *op, spif_module_t m, const vh_step_t *st) {
     }
     if (OP("set_mh_same")) return spif_module_set_module_handle(m, spif_module_get_module_handle(m)) ? 1 : 0;
     if (OP("set_main_same")) return spif_module_set_main_handle(m, spif_module_get_main_handle(m)) ? 1 : 0;
+    if (OP("null_fname")) return null_call("fname", m, atoi(ARG(1)));
     return 95;
 }
 static int in_child;
+/* A probe verdict is reused, within one harness process, for the same call shape: operation + arguments + library held by the
+ * object + libraries held by the other object (a fork of a sanitizer process costs milliseconds and there are 10^5 such steps). */
+#define NCACHE 512
+static struct { char key[72]; char verdict[64]; } pcache[NCACHE]; static int npcache;
+static const char *probe_child_raw(const char *op, spif_module_t m, const vh_step_t *st);
+static int lib_of_handle(void *h);
 static const char *probe_child(const char *op, spif_module_t m, const vh_step_t *st) {
-    pid_t pid; int stt = 0; static char msg[96];
+    char key[72]; int i; const char *v; spif_module_t other = (m == M[1]) ? M[2] : M[1];
     if (in_child || getenv("X05_NO_PROBE")) return NULL;
+    snprintf(key, sizeof(key), "%s|%s|%s|%d|%d|%d", op, ARG(1), ARG(2), lib_of_handle(m->module_handle), other ? lib_of_handle(other->module_handle) : -1,
+             m->name ? 1 : 0);
+    for (i = 0; i < npcache; i++) if (!strcmp(pcache[i].key, key)) return pcache[i].verdict[0] ? pcache[i].verdict : NULL;
+    v = probe_child_raw(op, m, st);
+    if (npcache < NCACHE) { snprintf(pcache[npcache].key, sizeof(pcache[0].key), "%s", key); snprintf(pcache[npcache].verdict, sizeof(pcache[0].verdict), "%s", v ? v : ""); npcache++; }
+    return v;
+}
+static const char *probe_child_raw(const char *op, spif_module_t m, const vh_step_t *st) {
+    pid_t pid; int stt = 0; static char msg[96];
     fflush(stdout); fflush(stderr);
     pid = fork();
     if (pid < 0) return "fork_failed";
@@ -437,7 +455,11 @@ static const char *step_inner(const vh_step_t *st, vh_sb *ret, vh_sb *state) {
         r = lib_of_addr(spif_module_getsym(m, (spif_charptr_t) sym));
     }
     else if (OP("null_sym")) r = null_call("sym", m, atoi(ARG(1)));
-    else if (OP("null_fname")) r = null_call("fname", m, atoi(ARG(1)));
+    else if (OP("null_fname")) {          /* call(m, NULL, ..) walks into the uninitialised branch of spif_module_call */
+        const char *d = probe_child(op, m, st);
+        if (d) { put_ret_int(ret, 98); put_state(state); my_abandoned = 1; return d; }
+        r = risky_op(op, m, st);
+    }
     else if (OP("type")) {
         spif_classname_t c = spif_module_type(m);
         r = ((spif_class_t) c == SPIF_CLASS_VAR(module) && SPIF_OBJ_CLASS(m) == SPIF_CLASS_VAR(module)
